@@ -390,3 +390,188 @@ func ruleDeadFieldRead(c *Ctx, r *R) {
 	}
 	r.check(n >= 100, "census", "-", fmt.Sprintf("%d fields that are read were examined", n), fmt.Sprintf("only %d read fields found", n))
 }
+
+func init() {
+	register(&Rule{ID: "DEAD-local-mutation", Props: []string{"C12", "C02"}, Min: 5,
+		Doc: "G (census, the dead-store form of Engler's contradictions): a method with a pointer receiver that only writes fields of its receiver, called on a local variable that nothing reads afterwards, changes a copy that is thrown away - the author meant to change the object the copy was taken from. For every call in package otto of a module method with a pointer receiver on a local variable: after the call, on some path, the variable is read, passed on, or its address is used; otherwise the call is reported. `date.SetNaN()` on the local copy of a Date's payload (where `obj.value = invalidDateObject` was meant) leaves the Date valid although the setter returned NaN",
+		Run: ruleDeadLocalMutation})
+}
+
+func ruleDeadLocalMutation(c *Ctx, r *R) {
+	n := 0
+	for _, fn := range c.AllSrcFuncs("") {
+		ord := 0
+		for _, b := range fn.Blocks {
+			for idx, ins := range b.Instrs {
+				call, ok := ins.(*ssa.Call)
+				if !ok {
+					continue
+				}
+				callee := call.Call.StaticCallee()
+				if callee == nil || callee.Signature.Recv() == nil || callee.Pkg == nil || callee.Pkg.Pkg.Path() != ottoPath {
+					continue
+				}
+				if _, isPtr := callee.Signature.Recv().Type().(*types.Pointer); !isPtr {
+					continue
+				}
+				al, ok := call.Call.Args[0].(*ssa.Alloc)
+				if !ok {
+					continue
+				}
+				if !storesToReceiver(callee, 0) {
+					continue // not a mutator
+				}
+				if refs := call.Referrers(); refs != nil && len(*refs) > 0 {
+					continue // the call is made for its result (a memoising getter): not a pure mutation
+				}
+				// a struct variable declared in this function (not a `new`/composite literal handed around)
+				if _, isStruct := al.Type().Underlying().(*types.Pointer).Elem().Underlying().(*types.Struct); !isStruct {
+					continue
+				}
+				if al.Comment == "complit" || al.Comment == "new" {
+					continue
+				}
+				// the callee returns nothing the caller uses, or something: irrelevant; what matters is the variable
+				n++
+				ord++
+				key := fmt.Sprintf("%s:%s#%d", ssaFuncName(fn), callee.Name(), ord)
+				site := c.Pos(instrPos(call))
+				// uses of the variable after the call
+				used := false
+				isUse := func(i2 ssa.Instruction) bool {
+					for _, op := range i2.Operands(nil) {
+						if *op == ssa.Value(al) {
+							// a store INTO the variable is not a read
+							if st, ok := i2.(*ssa.Store); ok && st.Addr == ssa.Value(al) && st.Val != ssa.Value(al) {
+								continue
+							}
+							return true
+						}
+					}
+					return false
+				}
+				for _, i2 := range b.Instrs[idx+1:] {
+					if isUse(i2) {
+						used = true
+					}
+				}
+				if !used {
+					seen := map[*ssa.BasicBlock]bool{}
+					var dfs func(x *ssa.BasicBlock)
+					dfs = func(x *ssa.BasicBlock) {
+						if seen[x] || used {
+							return
+						}
+						seen[x] = true
+						for _, i2 := range x.Instrs {
+							if isUse(i2) {
+								used = true
+								return
+							}
+						}
+						for _, s2 := range x.Succs {
+							dfs(s2)
+						}
+					}
+					for _, s2 := range b.Succs {
+						dfs(s2)
+					}
+				}
+				// captured by a closure: the closure may read it later
+				for _, ref := range *al.Referrers() {
+					if _, ok := ref.(*ssa.MakeClosure); ok {
+						used = true
+					}
+				}
+				if used {
+					r.ok(key, site, "the variable is used after the call")
+				} else {
+					r.bad(key, site, fmt.Sprintf("%s calls %s on the local variable %s and never looks at the variable again: the method changed a copy that is dropped when the function returns (if the variable was copied out of an object - `date := payload of obj` - the object itself is unchanged; Date setters given a NaN argument must leave the Date invalid: `d.setUTCSeconds(1, NaN); d.getTime()` is NaN)", ssaFuncName(fn), ssaFuncName(callee), al.Comment))
+				}
+			}
+		}
+	}
+	r.note("pointer-receiver calls on locals", n)
+}
+
+// storesToReceiver: fn (or a method it calls on the same receiver, two levels) stores to a field of its receiver, and
+// does nothing else observable with it (the receiver is not stored or passed elsewhere is NOT required: a store suffices
+// to make the call a mutation the caller must care about).
+func storesToReceiver(fn *ssa.Function, depth int) bool {
+	if fn == nil || len(fn.Blocks) == 0 || len(fn.Params) == 0 || depth > 2 {
+		return false
+	}
+	recv := fn.Params[0]
+	for _, b := range fn.Blocks {
+		for _, ins := range b.Instrs {
+			switch x := ins.(type) {
+			case *ssa.Store:
+				if fa, ok := x.Addr.(*ssa.FieldAddr); ok && fa.X == ssa.Value(recv) {
+					return true
+				}
+				if x.Addr == ssa.Value(recv) {
+					return true
+				}
+			case *ssa.Call:
+				if callee := x.Call.StaticCallee(); callee != nil && callee.Signature.Recv() != nil && len(x.Call.Args) > 0 && x.Call.Args[0] == ssa.Value(recv) {
+					if storesToReceiver(callee, depth+1) {
+						return true
+					}
+				}
+			}
+		}
+	}
+	return false
+}
+
+func init() {
+	register(&Rule{ID: "OWN-eval-flag", Props: []string{"C01", "C07"}, Min: 1,
+		Doc: "O (who may write): scope.eval makes the bindings that declaration binding instantiation creates deletable (ES5 10.4.2: only in eval code). It may be stored only by the function bound to the global `eval` (and the closures it defers): the `eval` parameter of cmplEvaluateNodeProgram means `stay in the current scope` and is also true for the Go API Otto.Eval, whose programs must behave as they do through Run (C01: the result does not depend on the route)",
+		Run: ruleOwnEvalFlag})
+}
+
+func ruleOwnEvalFlag(c *Ctx, r *R) {
+	evalFn := c.SSAFunc(c.Shape().BoundOn("")["eval"])
+	if evalFn == nil {
+		for n, f := range c.Shape().BoundOn("global") {
+			if n == "eval" {
+				evalFn = c.SSAFunc(f)
+			}
+		}
+	}
+	if evalFn == nil {
+		if f := c.LookupFunc("", "builtinGlobalEval"); f != nil {
+			evalFn = c.SSAFunc(f)
+		}
+	}
+	if evalFn == nil {
+		r.undecided("anchor", "-", "UNRESOLVED: the function bound to the global eval")
+		return
+	}
+	n := 0
+	for _, fn := range c.AllSrcFuncs("") {
+		for _, b := range fn.Blocks {
+			for _, ins := range b.Instrs {
+				st, ok := ins.(*ssa.Store)
+				if !ok || !isFieldAddr(st.Addr, "scope", "eval") {
+					continue
+				}
+				n++
+				owner := fn
+				for owner.Parent() != nil {
+					owner = owner.Parent()
+				}
+				key := "store:" + ssaFuncName(fn)
+				site := c.Pos(instrPos(st))
+				if owner == evalFn {
+					r.ok(key, site, "stored by the eval built-in (or a closure it defers)")
+				} else {
+					r.bad(key, site, fmt.Sprintf("%s stores scope.eval although it is not the eval built-in: every program that reaches declaration binding through it gets deletable bindings - `vm.Eval(\"var x = 1; delete x\")` (the Go API, which is Run without leaving the scope) answers true where Run answers false", ssaFuncName(fn)))
+				}
+			}
+		}
+	}
+	if n == 0 {
+		r.undecided("stores", "-", "no store to scope.eval found (DEAD-field-read reports the field as never set)")
+	}
+}
